@@ -153,7 +153,8 @@ def random_plan(seed, idx):
         elif k < 0.72:
             b.sub(p, I0, r.choice([1, 2]), ttl, r.choice([0, 0, 1]), eps=eps, pre=pre)
         elif k < 0.80:
-            b.sub(p, I0, r.choice([1, 2]), 0, r.choice([0, 0, 1]), eps=eps)
+            # (a StopSubscribe that names no endpoint matches no stored subscription: nobody's subscription ends)
+            b.sub(p, I0, r.choice([1, 2]), 0, r.choice([0, 0, 1]), eps=eps if r.random() < 0.8 else [])
         elif k < 0.88:
             b.preboot(p)
             b.sub(p, I0, r.choice([1, 2]), ttl)
